@@ -502,11 +502,11 @@ def minimize_subcircuits(
         if not filtered_outputs:
             logger.debug("All outputs have trivial input patterns")
             for output in subcircuit.outputs:
-                new_output = (
-                    outputs_mapping[output]
-                    if output in outputs_mapping
-                    else outputs_negation_mapping[output]
-                )
+                if output not in outputs_mapping:
+                    # the output is the negation of a leaf: it cannot be replaced
+                    # by the leaf itself, and nothing is cheaper than a NOT gate.
+                    continue
+                new_output = outputs_mapping[output]
                 for user in circuit.get_gate_users(output):
                     new_operands = tuple(
                         new_output if operand == output else operand
